@@ -49,7 +49,7 @@ func bigOf(x int64) *big.Int { return new(big.Int).SetInt64(x) }
 func VerifC07Vote() {
 	e := c07Setup()
 	ctx, k := e.ctx, e.k
-	nU := len(c07Universe)
+	nU := vs.Param("n_signals") // size of the signal universe (<= 3)
 	voterA, voterB := venv.Addr(1), venv.Addr(2)
 
 	p := types.DefaultParams()
